@@ -35,6 +35,10 @@ DEVIATIONS = {
                                'remembered: later frames on the promised stream are connection errors'),
     'hpack_error_code': (['C18'], 'an undecodable header block is answered with GOAWAY(PROTOCOL_ERROR) instead of COMPRESSION_ERROR'),
     'ack_data_when_closed': (['C19'], 'acknowledge_received_data emits WINDOW_UPDATE frames on a closed connection'),
+    'rst_on_closed_connection': (['C19'],
+                                 'a naked CONTINUATION frame for a locally reset stream, received after the connection was closed, '
+                                 'makes the library emit RST_STREAM(STREAM_CLOSED) on the closed connection (found by TLC: '
+                                 'P_C19_ClosedStaysQuiet on MC_CloseS)'),
     'client_advertises_idle': (['C24', 'C08'], 'a client whose connection is still idle can emit an ALTSVC frame'),
     'server_opens_stream': (['C08', 'C09'], 'a server can open a new stream with send_headers (response HEADERS on an unused even id)'),
     'ack_per_key': (['C11'],
